@@ -142,7 +142,28 @@ macro_rules! run_type {
     }};
 }
 
+/// konst::for_range! (integer `start..end` only): the same values as the std range, nothing for inverted ranges
+macro_rules! run_for_range {
+    ($s:ident, $v:ident, $($t:ty),*) => { $(
+        if $v["kind"] == json!("excl") && $v["small"].as_u64().unwrap() == 1 {
+            if let (Some(a), Some(b)) = (<$t as Proj>::proj($v["start"].as_i64().unwrap()), <$t as Proj>::proj($v["end"].as_i64().unwrap())) {
+                let seq: Option<Vec<$t>> = ints_of(&$v["seq"]).iter().map(|x| <$t as Proj>::proj(*x)).collect();
+                if let Some(q) = seq.filter(|q| q.windows(2).all(|w| w[1].to_i() - w[0].to_i() == 1)) {
+                    let mut fe: Vec<$t> = Vec::new();
+                    konst::for_range!{x in a..b => fe.push(x); if fe.len() > 60 { break; } }
+                    $s.check(&format!("for_range!(Range<{}>)", stringify!($t)), json!(format!("{:?}", fe)), &json!(format!("{:?}", q)));
+                }
+            }
+        }
+    )* };
+}
+
 pub fn replay(s: &mut Summary, v: &V) {
+    match v["ty"].as_str().unwrap() {
+        "u8" => { run_for_range!(s, v, u8, u16, u32, u64, u128, usize); }
+        "i8" => { run_for_range!(s, v, i8, i16, i32, i64, i128, isize); }
+        _ => {}
+    }
     match v["ty"].as_str().unwrap() {
         "u8" => {
             run_type!(s, v, u8); run_type!(s, v, u16); run_type!(s, v, u32);
